@@ -17,7 +17,7 @@
    model says DEFINED; where the model says undefined it stops comparing that
    sequence and only counts whether the library failed or accepted. *)
 Require Import ZArith QArith List Bool Arith.
-Require Import BFL.Ops BFL.ListOps BFL.C11_Model BFL.C11_Proofs.
+Require Import BFL.Ops BFL.ListOps BFL.C11_Model BFL.C11_Proofs BFL.C11_Access.
 Import ListNotations.
 Local Open Scope nat_scope.
 
@@ -62,6 +62,121 @@ Proof. exact (fun H _ => ps_apply_consistent S junk o p H). Qed.
 Theorem C11_pset_reachable ops c l ci q p' :
   ps_run S junk ops (ps_ctor S c l ci q) = Some p' -> Consistent_ps S p'.
 Proof. exact (ps_run_consistent S junk ops _ p' (ps_ctor_consistent S c l ci q)). Qed.
+
+(* POOLS OF OBJECTS.  Several objects live side by side (gm_pool0: built by constructor calls of any
+   layouts); a sequence mixes the single-object operations on any of them (KOn) with the special member
+   functions: copy construction / copy assignment from another object or from itself (KCopy), move
+   construction / move assignment (KMove; the moved-from source is not available afterwards until it is
+   the target of a construction or assignment) and construction / assignment from a temporary (KTemp):
+   X(...), f(x) for a function returning a modified copy by value, a + b.  Every object of the pool,
+   whatever it was before and whatever it was assigned from, satisfies the invariant ... *)
+Theorem C11_pool_reachable ks ls p' : gm_krun S junk ks (gm_pool0 S ls) = Some p' ->
+  length p' = length ls /\ forall i g b, nth_error p' i = Some (g, b) -> Consistent S g.
+Proof.
+  exact (fun R => let H := gm_krun_consistent S junk ks _ p' (pool0_all _ _ ls (gm_fresh_consistent S)) R in
+                  conj (eq_trans (proj2 H) (map_length _ ls)) (proj1 H)).
+Qed.
+
+Theorem C11_gauss_pool_reachable ks ls p' : gauss_krun S junk ks (gauss_pool0 S ls) = Some p' ->
+  length p' = length ls /\ (forall i g b, nth_error p' i = Some (g, b) -> Consistent S g)
+  /\ (forallb (kop_all (gaussop_single S)) ks = true -> forall i g b, nth_error p' i = Some (g, b) -> Gaussian_ok S g).
+Proof.
+  exact (fun R => let H := gauss_krun_consistent S junk ks _ p' (pool0_all _ _ ls (fun f => proj1 (gauss_fresh_ok S f))) R in
+                  conj (eq_trans (proj2 H) (map_length _ ls))
+                       (conj (proj1 H) (fun Hs => proj1 (gauss_krun_ok S junk ks _ p' (pool0_all _ _ ls (gauss_fresh_ok S)) Hs R)))).
+Qed.
+
+Theorem C11_pset_pool_reachable ks ls p' : ps_krun S junk ks (ps_pool0 S ls) = Some p' ->
+  length p' = length ls /\ forall i x b, nth_error p' i = Some (x, b) -> Consistent_ps S x.
+Proof.
+  exact (fun R => let H := ps_krun_consistent S junk ks _ p' (pool0_all _ _ ls (ps_fresh_consistent S)) R in
+                  conj (eq_trans (proj2 H) (map_length _ ls)) (proj1 H)).
+Qed.
+
+(* ... and a copy IS the source: after `X n(s)` / `t = s` (also t = s itself: self-assignment) the target
+   reports exactly the source's descriptors and data, and no other object (in particular the source)
+   changes.  Stated for mixtures (Gaussians are mixtures: gauss_kstep has the same clauses) and particle sets. *)
+Theorem C11_copy_exact t s :
+  (forall p p' g, slot_get p s = Some g -> gm_kstep S junk (KCopy t s) p = Some p' ->
+     slot_get p' t = Some g /\ (forall i, i <> t -> nth_error p' i = nth_error p i))
+  /\ (forall p p' g, slot_get p s = Some g -> gauss_kstep S junk (KCopy t s) p = Some p' ->
+     slot_get p' t = Some g /\ (forall i, i <> t -> nth_error p' i = nth_error p i))
+  /\ (forall p p' x, slot_get p s = Some x -> ps_kstep S junk (KCopy t s) p = Some p' ->
+     slot_get p' t = Some x /\ (forall i, i <> t -> nth_error p' i = nth_error p i)).
+Proof.
+  exact (conj (fun p p' g => kstep_copy_exact _ _ _ _ _ _ _ _ _ (gm_copy_id S) t s p p' g)
+        (conj (fun p p' g => kstep_copy_exact _ _ _ _ _ _ _ _ _ (gm_copy_id S) t s p p' g)
+              (fun p p' x => kstep_copy_exact _ _ _ _ _ _ _ _ _ (ps_copy_id S) t s p p' x))).
+Qed.
+
+(* move construction / move assignment (`X n(std::move(s))`, `t = std::move(s)`): the target is the
+   source's value; the source is moved-from (no longer available: valid but unspecified in C++, so
+   nothing is claimed about it and the check does not look at it); third objects do not change *)
+Theorem C11_move_exact t s :
+  (forall p p' g, slot_get p s = Some g -> gm_kstep S junk (KMove t s) p = Some p' ->
+     slot_get p' t = Some g /\ (t <> s -> slot_get p' s = None)
+     /\ (forall i, i <> t -> i <> s -> nth_error p' i = nth_error p i))
+  /\ (forall p p' g, slot_get p s = Some g -> gauss_kstep S junk (KMove t s) p = Some p' ->
+     slot_get p' t = Some g /\ (t <> s -> slot_get p' s = None)
+     /\ (forall i, i <> t -> i <> s -> nth_error p' i = nth_error p i))
+  /\ (forall p p' x, slot_get p s = Some x -> ps_kstep S junk (KMove t s) p = Some p' ->
+     slot_get p' t = Some x /\ (t <> s -> slot_get p' s = None)
+     /\ (forall i, i <> t -> i <> s -> nth_error p' i = nth_error p i)).
+Proof.
+  exact (conj (fun p p' g => kstep_move_exact _ _ _ _ _ _ _ _ _ (gm_copy_id S) t s p p' g)
+        (conj (fun p p' g => kstep_move_exact _ _ _ _ _ _ _ _ _ (gm_copy_id S) t s p p' g)
+              (fun p p' x => kstep_move_exact _ _ _ _ _ _ _ _ _ (ps_copy_id S) t s p p' x))).
+Qed.
+
+(* construction / assignment from a temporary: the target is the value of the expression, whatever the
+   target was before; nothing else changes *)
+Theorem C11_temporary_exact t :
+  (forall e p p', gm_kstep S junk (KTemp t e) p = Some p' ->
+     (exists g, gm_eval S junk p e = Some g /\ slot_get p' t = Some g) /\ (forall i, i <> t -> nth_error p' i = nth_error p i))
+  /\ (forall e p p', gauss_kstep S junk (KTemp t e) p = Some p' ->
+     (exists g, gauss_eval S junk p e = Some g /\ slot_get p' t = Some g) /\ (forall i, i <> t -> nth_error p' i = nth_error p i))
+  /\ (forall e p p', ps_kstep S junk (KTemp t e) p = Some p' ->
+     (exists x, ps_eval S junk p e = Some x /\ slot_get p' t = Some x) /\ (forall i, i <> t -> nth_error p' i = nth_error p i)).
+Proof.
+  exact (conj (fun e p p' => kstep_temp_exact _ _ _ _ _ _ _ _ _ t e p p')
+        (conj (fun e p p' => kstep_temp_exact _ _ _ _ _ _ _ _ _ t e p p')
+              (fun e p p' => kstep_temp_exact _ _ _ _ _ _ _ _ _ t e p p'))).
+Qed.
+
+(* in particular `t = f(s)` for a function returning a resized / augmented / ... copy of the named object s
+   by value (s = t: assignment between an object and a modified copy of itself) gives exactly the
+   object the operation gives on s (so C11_augment_content, C11_resize_components_preserves, ... describe it),
+   and `t = a + b` gives the concatenation of a and b (C11_concat_content) *)
+Theorem C11_assign_function_result t s :
+  (forall o p p' g, slot_get p s = Some g -> gm_kstep S junk (KTemp t (EOp o (ESlot s))) p = Some p' ->
+     gop_defined S o g = true /\ slot_get p' t = Some (gm_apply S junk o g)
+     /\ (forall i, i <> t -> nth_error p' i = nth_error p i))
+  /\ (forall o p p' g, slot_get p s = Some g -> gauss_kstep S junk (KTemp t (EOp o (ESlot s))) p = Some p' ->
+     gaussop_defined S o g = true /\ slot_get p' t = Some (gauss_apply S junk o g)
+     /\ (forall i, i <> t -> nth_error p' i = nth_error p i))
+  /\ (forall o p p' x, slot_get p s = Some x -> ps_kstep S junk (KTemp t (EOp o (ESlot s))) p = Some p' ->
+     pop_defined S junk o x = true /\ slot_get p' t = Some (ps_apply S junk o x)
+     /\ (forall i, i <> t -> nth_error p' i = nth_error p i)).
+Proof.
+  exact (conj (fun o p p' g => kstep_temp_op_slot _ _ _ _ _ _ _ _ _ (gm_copy_id S) t s o p p' g)
+        (conj (fun o p p' g => kstep_temp_op_slot _ _ _ _ _ _ _ _ _ (gm_copy_id S) t s o p p' g)
+              (fun o p p' x => kstep_temp_op_slot _ _ _ _ _ _ _ _ _ (ps_copy_id S) t s o p p' x))).
+Qed.
+
+Theorem C11_assign_sum t a b p p' x y : slot_get p a = Some x -> slot_get p b = Some y ->
+  ps_kstep S junk (KTemp t (EBin (ESlot a) (ESlot b))) p = Some p' ->
+  ps_concat_defined S junk y x = true /\ slot_get p' t = Some (ps_concat S junk y x)
+  /\ (forall i, i <> t -> nth_error p' i = nth_error p i).
+Proof.
+  rewrite <- (ps_plus_is_concat S junk x y).
+  exact (kstep_temp_bin_slots _ _ _ _ _ _ _ _ _ (ps_copy_id S) t a b p p' x y).
+Qed.
+
+(* a pool of one object on which only single-object operations run is the history of C11_reachable *)
+Theorem C11_pool_single_history ops c l ci q :
+  gm_krun S junk (map (KOn 0) ops) (gm_pool0 S [(c, l, ci, q)]) =
+  match gm_run S junk ops (gm_ctor S c l ci q) with Some g => Some [(g, true)] | None => None end.
+Proof. exact (krun_single _ _ _ _ _ _ _ _ _ ops (gm_ctor S c l ci q)). Qed.
 
 (* copy construction / assignment (and "move": no move constructor exists) reproduce every field.
    DEFINITIONAL: gm_copy is the member-wise copy, so this is the eta-rule of the record; the
@@ -116,6 +231,90 @@ Theorem C11_components_view g i d : i < components S g ->
   /\ nth i (gm_comps S g) d = (gm_mean S g i, gm_cov S g i, gm_weight S g i).
 Proof. exact (fun H => conj (gm_comps_length S g) (gm_comps_nth S g i d H)). Qed.
 
+(* ... and of a particle set: (particle state, mean, covariance, weight) of every component *)
+Theorem C11_pset_components_view p i d : i < components S (base S p) ->
+  length (ps_comps S p) = components S (base S p)
+  /\ nth i (ps_comps S p) d = (ps_state S p i, gm_mean S (base S p) i, gm_cov S (base S p) i, gm_weight S (base S p) i).
+Proof. exact (fun H => conj (ps_comps_length S p) (ps_comps_nth S p i d H)). Qed.
+
+(* the view determines the storage: the backing matrices are exactly the concatenation, component after
+   component, of what the per-component accessors return (no cell outside every component's block) *)
+Theorem C11_view_determines_storage g p : Consistent S g -> Consistent_ps S p ->
+  mdata S (mean_ S g) = concat (map (fun i => mdata S (gm_mean S g i)) (seq 0 (components S g)))
+  /\ mdata S (cov_ S g) = concat (map (fun i => mdata S (gm_cov S g i)) (seq 0 (components S g)))
+  /\ mdata S (weight_ S g) = [map (fun i => gm_weight S g i) (seq 0 (components S g))]
+  /\ mdata S (state_ S p) = concat (map (fun i => mdata S (ps_state S p i)) (seq 0 (components S (base S p)))).
+Proof.
+  exact (fun Hg Hp => conj (mean_is_concatenation S g Hg) (conj (cov_is_concatenation S g Hg)
+                      (conj (weight_is_the_list S g Hg) (state_is_concatenation S p Hp)))).
+Qed.
+
+(* THE NON-CONST OVERLOADS return references to the same cells as the const ones: what is written through
+   mean(i, j) / covariance(i, j, k) / weight(i) / state(i, j) is what every overload reads back for that cell,
+   every other cell of every accessor and every descriptor is unchanged, the invariant is kept *)
+Theorem C11_write_mean_el g i j x : Consistent S g -> i < components S g -> j < dim S g ->
+  let g' := gm_set_mean_el S g i j x in
+  Consistent S g' /\ same_layout S g g' /\ cov_ S g' = cov_ S g /\ weight_ S g' = weight_ S g
+  /\ gm_mean_el S g' i j = x /\ get S (gm_mean S g' i) j 0 = x
+  /\ (forall i' j', i' < components S g -> j' < dim S g -> (i' <> i \/ j' <> j) ->
+        gm_mean_el S g' i' j' = gm_mean_el S g i' j')
+  /\ (forall i', i' < components S g -> i' <> i -> gm_mean S g' i' = gm_mean S g i').
+Proof. exact (gm_set_mean_el_spec S g i j x). Qed.
+
+Theorem C11_write_cov_el g i j k x : Consistent S g -> i < components S g -> j < dcov S g -> k < dcov S g ->
+  let g' := gm_set_cov_el S g i j k x in
+  Consistent S g' /\ same_layout S g g' /\ mean_ S g' = mean_ S g /\ weight_ S g' = weight_ S g
+  /\ gm_cov_el S g' i j k = x /\ get S (gm_cov S g' i) j k = x
+  /\ (forall i' j' k', i' < components S g -> j' < dcov S g -> k' < dcov S g -> (i' <> i \/ j' <> j \/ k' <> k) ->
+        gm_cov_el S g' i' j' k' = gm_cov_el S g i' j' k')
+  /\ (forall i', i' < components S g -> i' <> i -> gm_cov S g' i' = gm_cov S g i').
+Proof. exact (gm_set_cov_el_spec S g i j k x). Qed.
+
+Theorem C11_write_weight g i x : Consistent S g -> i < components S g ->
+  let g' := gm_set_weight S g i x in
+  Consistent S g' /\ same_layout S g g' /\ mean_ S g' = mean_ S g /\ cov_ S g' = cov_ S g
+  /\ gm_weight S g' i = x
+  /\ (forall i', i' < components S g -> i' <> i -> gm_weight S g' i' = gm_weight S g i').
+Proof. exact (gm_set_weight_spec S g i x). Qed.
+
+Theorem C11_write_state_el p i j x : Consistent_ps S p -> i < components S (base S p) -> j < dim S (base S p) ->
+  let p' := ps_set_state_el S p i j x in
+  Consistent_ps S p' /\ base S p' = base S p
+  /\ ps_state_el S p' i j = x /\ get S (ps_state S p' i) j 0 = x
+  /\ (forall i' j', i' < components S (base S p) -> j' < dim S (base S p) -> (i' <> i \/ j' <> j) ->
+        ps_state_el S p' i' j' = ps_state_el S p i' j')
+  /\ (forall i', i' < components S (base S p) -> i' <> i -> ps_state S p' i' = ps_state S p i').
+Proof. exact (ps_set_state_el_spec S p i j x). Qed.
+
+(* ... and block-wise: mean(i) = v, covariance(i) = m, state(i) = v *)
+Theorem C11_write_blocks g p i v m : Consistent S g -> Consistent_ps S p ->
+  (i < components S g -> shape S v (dim S g) 1 ->
+     let g' := gm_set_mean S g i v in
+     Consistent S g' /\ same_layout S g g' /\ cov_ S g' = cov_ S g /\ weight_ S g' = weight_ S g /\ gm_mean S g' i = v
+     /\ (forall i', i' < components S g -> i' <> i -> gm_mean S g' i' = gm_mean S g i'))
+  /\ (i < components S g -> shape S m (dcov S g) (dcov S g) ->
+     let g' := gm_set_cov S g i m in
+     Consistent S g' /\ same_layout S g g' /\ mean_ S g' = mean_ S g /\ weight_ S g' = weight_ S g /\ gm_cov S g' i = m
+     /\ (forall i', i' < components S g -> i' <> i -> gm_cov S g' i' = gm_cov S g i'))
+  /\ (i < components S (base S p) -> shape S v (dim S (base S p)) 1 ->
+     let p' := ps_set_state S p i v in
+     Consistent_ps S p' /\ base S p' = base S p /\ ps_state S p' i = v
+     /\ (forall i', i' < components S (base S p) -> i' <> i -> ps_state S p' i' = ps_state S p i')).
+Proof.
+  exact (fun Hg Hp => conj (gm_set_mean_spec S g i v Hg) (conj (gm_set_cov_spec S g i m Hg) (ps_set_state_spec S p i v Hp))).
+Qed.
+
+(* filling a container cell by cell through the element accessors of every component (GFillEl), or component
+   by component through the block accessors (GFillBlk), gives the object that filling the backing matrices
+   through the whole-matrix accessors gives (GFill): the three families of accessors address the same storage *)
+Theorem C11_fill_through_accessors b g p : Consistent S g -> Consistent_ps S p ->
+  gm_fill_el S b g = gm_fill S b g /\ gm_fill_blk S b g = gm_fill S b g
+  /\ ps_fill_el S b p = ps_fill S b p /\ ps_fill_blk S b p = ps_fill S b p.
+Proof.
+  exact (fun Hg Hp => conj (gm_fill_el_is_fill S b g Hg) (conj (gm_fill_blk_is_fill S b g Hg)
+                      (conj (ps_fill_el_is_fill S b p Hp) (ps_fill_blk_is_fill S b p Hp)))).
+Qed.
+
 (* changing only the number of components preserves the surviving components; the cells of new
    components are unspecified (junk: Eigen's conservativeResize does not initialise them).
    "Only the number of components" means: same linear and circular sizes AND no noise part
@@ -163,6 +362,42 @@ Theorem C11_augment_twice_content q1 q2 g :
        gm_mean S g2 i = vcat S (vcat S (gm_mean S g i) (e_zero S (mrows S q1) 1)) (e_zero S (mrows S q2) 1)
        /\ gm_cov S g2 i = blockdiag S (blockdiag S (gm_cov S g i) q1) q2.
 Proof. exact (gm_augment_twice_content S q1 q2 g). Qed.
+
+(* ANY number of augmentations (the history GAugment q1; ...; GAugment qk), and the parts the algorithms address
+   through the descriptors: state part = the first dim - dim_noise rows / the top-left block of that size, noise
+   part = mean(i).tail(dim_noise) / covariance(i).bottomRightCorner(dim_noise, dim_noise).  The state parts
+   never change; every augmentation appends zero rows to the noise mean and Q, block-diagonally, to the noise
+   covariance *)
+Theorem C11_augment_repeated_content qs g : Consistent S g -> 1 <= components S g -> all_square S qs ->
+  let g' := gm_augment_all S qs g in
+  let R := list_sum (map (mrows S) qs) in
+  gm_run S junk (map (GAugment S) qs) g = Some g'
+  /\ Consistent S g' /\ components S g' = components S g /\ dl S g' = dl S g /\ dc S g' = dc S g
+  /\ use_quat S g' = use_quat S g /\ dcc S g' = dcc S g
+  /\ dn S g' = dn S g + R /\ dim S g' = dim S g + R /\ dcov S g' = dcov S g + R
+  /\ forall i, i < components S g ->
+       gm_mean S g' i = fold_left (add_zero_rows S) qs (gm_mean S g i)
+       /\ gm_cov S g' i = fold_left (blockdiag S) qs (gm_cov S g i)
+       /\ gm_weight S g' i = gm_weight S g i
+       /\ gm_state_mean S g' i = gm_state_mean S g i
+       /\ gm_noise_mean S g' i = fold_left (add_zero_rows S) qs (gm_noise_mean S g i)
+       /\ gm_state_cov S g' i = gm_state_cov S g i
+       /\ gm_noise_cov S g' i = fold_left (blockdiag S) qs (gm_noise_cov S g i).
+Proof. exact (fun HC Hc Hq => conj (gm_augment_all_is_run S junk qs g Hc) (gm_augment_all_content S qs g HC Hc Hq)). Qed.
+
+(* in particular the noise part of every mean of a mixture that started without noise is zero *)
+Theorem C11_noise_mean_zero qs g i : Consistent S g -> 1 <= components S g -> all_square S qs -> dn S g = 0 ->
+  i < components S g ->
+  forall r, r < dn S (gm_augment_all S qs g) -> get S (gm_noise_mean S (gm_augment_all S qs g) i) r 0 = s0 S.
+Proof. exact (gm_noise_mean_zero S qs g i). Qed.
+
+(* the particles' own state and noise parts *)
+Theorem C11_pset_augment_parts q p : Consistent_ps S p -> 1 <= components S (base S p) -> mrows S q = mcols S q ->
+  let p' := snd (ps_augment S q p) in
+  forall i, i < components S (base S p) ->
+    ps_state_part S p' i = ps_state_part S p i
+    /\ ps_noise_part S p' i = vcat S (ps_noise_part S p i) (e_zero S (mrows S q) 1).
+Proof. exact (ps_augment_parts S q p). Qed.
 
 (* a particle set: the Gaussian part as above, particle states become [x_i; 0] *)
 Theorem C11_pset_augment_content q p : Consistent_ps S p -> 1 <= components S (base S p) -> mrows S q = mcols S q ->
@@ -270,6 +505,37 @@ Example C11_runs_Q :
   = true.
 Proof. vm_compute. reflexivity. Qed.
 
+(* ... and pools: a mixture filled and augmented, copied into a slot of another layout, moved on into a third
+   one (the source is then unavailable: looking at it is outside the premises), a slot re-initialised from a
+   temporary of a quaternion layout, an object assigned an augmented copy of ITSELF, a self-assignment; and
+   r = a + b for two augmented particle sets a, b and an unrelated r (descriptors and data of the sum) *)
+Example C11_pool_runs_Q :
+  let q1 := mk QOps 1 1 (fun _ _ => 9%Q) in
+  let gl := [(2, 1, 1, false); (1, 3, 0, false); (4, 0, 2, true)] in
+  (match gm_krun QOps QJ [KOn 0 (GFill QOps 1%Z); KOn 0 (GAugment QOps q1); KCopy 1 0; KMove 2 1;
+                          KTemp 1 (EFresh (3, 2, 1, true)); KTemp 0 (EOp (GAugment QOps q1) (ESlot 0)); KCopy 2 2]
+                 (gm_pool0 QOps gl) with
+   | Some p => forallb (fun s => gm_consistentb QOps (fst s)) p
+               && (match slot_get p 0 with Some g => (dn QOps g =? 2) && (dim QOps g =? 4) | None => false end)
+               && (match slot_get p 1 with Some g => (dn QOps g =? 0) && (components QOps g =? 3) && (dcov QOps g =? 5) | None => false end)
+               && (match slot_get p 2 with
+                   | Some g => (dn QOps g =? 1) && (components QOps g =? 2) && qmx_eqb (mdata QOps (gm_mean QOps g 1)) [[3; 4; 0]]%Q
+                   | None => false end)
+   | None => false end)
+  && (match gm_krun QOps QJ [KMove 1 0; KLook 0] (gm_pool0 QOps gl) with None => true | Some _ => false end)
+  && (match gm_krun QOps QJ [KMove 1 0; KCopy 0 1; KLook 0] (gm_pool0 QOps gl) with Some _ => true | None => false end)
+  && (match ps_krun QOps QJ [KOn 0 (PFill QOps 1%Z); KOn 1 (PFill QOps 100%Z); KOn 0 (PAugment QOps q1); KOn 1 (PAugment QOps q1);
+                             KTemp 2 (EBin (ESlot 0) (ESlot 1))]
+                 (ps_pool0 QOps [(2, 2, 0, false); (1, 2, 0, false); (1, 1, 0, false)]) with
+      | Some p => forallb (fun s => ps_consistentb QOps (fst s)) p
+                  && (match slot_get p 2 with
+                      | Some x => (components QOps (base QOps x) =? 3) && (dn QOps (base QOps x) =? 1) && (dim QOps (base QOps x) =? 3)
+                                  && qmx_eqb (mdata QOps (state_ QOps x)) [[15; 16; 0]; [17; 18; 0]; [107; 108; 0]]%Q
+                      | None => false end)
+      | None => false end)
+  = true.
+Proof. vm_compute. reflexivity. Qed.
+
 Print Assumptions C11_ctor_consistent.
 Print Assumptions C11_ctor_uniform_weights.
 Print Assumptions C11_inv.
@@ -277,6 +543,15 @@ Print Assumptions C11_reachable.
 Print Assumptions C11_gauss_reachable.
 Print Assumptions C11_pset_inv.
 Print Assumptions C11_pset_reachable.
+Print Assumptions C11_pool_reachable.
+Print Assumptions C11_gauss_pool_reachable.
+Print Assumptions C11_pset_pool_reachable.
+Print Assumptions C11_copy_exact.
+Print Assumptions C11_move_exact.
+Print Assumptions C11_temporary_exact.
+Print Assumptions C11_assign_function_result.
+Print Assumptions C11_assign_sum.
+Print Assumptions C11_pool_single_history.
 Print Assumptions C11_copy_is_identity.
 Print Assumptions C11_invariant_executable.
 Print Assumptions C11_accessors.
@@ -284,11 +559,22 @@ Print Assumptions C11_pset_accessors.
 Print Assumptions C11_gauss_accessors.
 Print Assumptions C11_storage_is_concatenation_of_blocks.
 Print Assumptions C11_components_view.
+Print Assumptions C11_pset_components_view.
+Print Assumptions C11_view_determines_storage.
+Print Assumptions C11_write_mean_el.
+Print Assumptions C11_write_cov_el.
+Print Assumptions C11_write_weight.
+Print Assumptions C11_write_state_el.
+Print Assumptions C11_write_blocks.
+Print Assumptions C11_fill_through_accessors.
 Print Assumptions C11_resize_components_preserves.
 Print Assumptions C11_pset_resize_components_preserves.
 Print Assumptions C11_augment_content.
 Print Assumptions C11_augment_nonsquare.
 Print Assumptions C11_augment_twice_content.
+Print Assumptions C11_augment_repeated_content.
+Print Assumptions C11_noise_mean_zero.
+Print Assumptions C11_pset_augment_parts.
 Print Assumptions C11_pset_augment_content.
 Print Assumptions C11_concat_content.
 Print Assumptions C11_plus_is_concat.
